@@ -63,6 +63,7 @@ type Struct[T any, G StructProcesor[T]] struct {
 	value                        T
 	err                          error
 	depVersions                  []int
+	depUnread                    []bool // dependencies the last run of Process() did not read
 	inputChangedSinceLastProcess bool
 
 	version int
@@ -112,6 +113,13 @@ func (sn Struct[T, G]) Outdated() bool {
 	}
 
 	for i, nodeDep := range deps {
+		// A dependency the last run never read did not contribute to the value.
+		// As long as everything that run did read is unchanged, Process() would
+		// take the same path and skip it again, whatever happened to it since.
+		if sn.depUnread[i] {
+			continue
+		}
+
 		dep := nodeDep.Dependency()
 		if dep.Version() != sn.depVersions[i] || dep.State() != Processed {
 			return true
@@ -124,8 +132,13 @@ func (sn Struct[T, G]) Outdated() bool {
 func (sn *Struct[T, G]) updateUsedDependencyVersions() {
 	deps := sn.Dependencies()
 	sn.depVersions = make([]int, len(deps))
+	sn.depUnread = make([]bool, len(deps))
 	for i, dep := range deps {
 		sn.depVersions[i] = dep.Dependency().Version()
+
+		// Reading a dependency evaluates it, so one that is still stale now was
+		// not read by the run that just finished.
+		sn.depUnread[i] = dep.Dependency().State() != Processed
 	}
 }
 
